@@ -207,6 +207,10 @@ def _structs():
         "namedtuple": (lambda a, b, c: M.NT(a, "t"), lambda a, b, c: [("a", a), ("b", "t")]),
         "namedtuple_pair_first": (lambda a, b, c: O.PairFirst((a, b), c), lambda a, b, c: [("p", (a, b)), ("n", c)]),
         "namedtuple_str2_first": (lambda a, b, c: O.StrFirst("ab", c), lambda a, b, c: [("name", "ab"), ("n", c)]),
+        "namedtuple_subclass": (lambda a, b, c: M.SubNT(a, "t"), lambda a, b, c: [("a", a), ("b", "t")]),
+        "namedtuple_unannotated": (lambda a, b, c: M.PlainNT(a, b), lambda a, b, c: [("a", a), ("b", b)]),
+        "namedtuple_unannotated_pair_first": (lambda a, b, c: M.PlainNT((a, b), c), lambda a, b, c: [("a", (a, b)), ("b", c)]),
+        "namedtuple_unannotated_str2_first": (lambda a, b, c: M.PlainNT("xy", c), lambda a, b, c: [("a", "xy"), ("b", c)]),
         "plain_hinted": (lambda a, b, c: O.Hinted(a, b, c), lambda a, b, c: [("a", a), ("b", b)]),
         "slots_only": (lambda a, b, c: O.slots_only(a, b, c), lambda a, b, c: [("a", a), ("b", c)]),
         "vars_only": (lambda a, b, c: O.vars_only(a, b, c), lambda a, b, c: [("a", a), ("b", b)]),
